@@ -42,6 +42,13 @@ pub struct Case {
     pub quality: u32,
     pub seed: u64,
     pub histories: Vec<Vec<Op>>,
+    /// the content starts with this many incompressible bytes, then this many bytes of text
+    /// (tunes the size and the last bits of compressed block 0)
+    #[serde(default)]
+    pub lead: (u32, u32),
+    /// bytes handed to the model's brotli encoder per write (0: the whole block at once)
+    #[serde(default)]
+    pub write_piece: u32,
 }
 
 fn tgt(t: u64, len: u64, k: &K) -> Tgt {
@@ -158,6 +165,8 @@ pub fn cases(ctx: &Ctx) -> Vec<Case> {
         quality: *rng.pick(&[0u32, 1, 5]),
         seed,
         histories: hs,
+        lead: (0, 0),
+        write_piece: 0,
     };
     if !k.is_prod() {
         // exhaustive: every length, every target
@@ -284,7 +293,8 @@ fn build_reader<'a>(c: &Case, k: &K, plain: &[u8]) -> Result<BoxReader<'a>, Stri
             let enc = layer == "enc" || layer == "both";
             let comp = layer == "comp" || layer == "both";
             let q = c.quality;
-            let inner = if comp { fmt::enc_compress(k, plain, &|_| q) } else { plain.to_vec() };
+            let wp = if c.write_piece == 0 { usize::MAX } else { c.write_piece as usize };
+            let inner = if comp { fmt::enc_compress_pieces(k, plain, &|_| q, wp) } else { plain.to_vec() };
             let raw = if enc {
                 let key = rng.array32();
                 let nonce: [u8; 8] = rng.bytes(8).try_into().unwrap();
@@ -345,10 +355,64 @@ fn pos_class(t: u64, len: u64, k: &K) -> &'static str {
     }
 }
 
+fn content(c: &Case, len: u64) -> Vec<u8> {
+    let mut plain = file_bytes(c.seed, 0, c.data, len as usize);
+    let r = (c.lead.0 as usize).min(plain.len());
+    let t = (c.lead.1 as usize).min(plain.len() - r);
+    plain[..r].copy_from_slice(&file_bytes(c.seed, 1, DataKind::Random, r));
+    plain[r..r + t].copy_from_slice(&file_bytes(c.seed, 2, DataKind::Text, t));
+    plain
+}
+
+/// Compression over encryption, production constants: `r` incompressible bytes, `t` bytes of
+/// text, then constant data. `t` is varied until the first compressed block ends with a byte the
+/// decoder does not need to deliver the block's data (it only holds the end-of-stream bits), `r`
+/// tuned until that block ends `residue` bytes after an encryption chunk edge: at residue 1 a
+/// sequential read leaves that byte unread in the layer below when it rolls over to block 1.
+fn tuned_both_case(ctx: &Ctx, residue: i64, seed: u64) -> Option<(Case, bool)> {
+    let k = ctx.k;
+    let len = k.block + 300_000;
+    let mut c = Case { layer: "both".into(), len: Sz::from_concrete(len, &k), data: DataKind::Constant(0x3c), offset: 0, quality: 1, seed, histories: vec![], lead: (0, 0), write_piece: 8192 };
+    let want = residue.rem_euclid(k.chunk as i64);
+    for t in 1..=64u32 {
+        let mut r = 5 * k.chunk as i64 + 4321;
+        for _ in 0..10 {
+            c.lead = (r as u32, t * 29);
+            let plain = content(&c, len);
+            let blk = fmt::brotli_compress_pieces(&plain[..k.block as usize], 1, 8192);
+            let unneeded = fmt::brotli_decompress_prefix(&blk[..blk.len() - 1]).len() as u64 == k.block;
+            let have = (blk.len() as i64).rem_euclid(k.chunk as i64);
+            if have == want && !unneeded {
+                break; // right place, wrong last bits: next t
+            }
+            if have == want {
+                let b = Sz::new(1, 0, 0);
+                let at = |d: i64| Sz::new(1, 0, d);
+                c.histories = vec![
+                    // sequential reads over the block edge, various read sizes
+                    vec![Op::Read(at(-10)), Op::Pos, Op::Read(Sz::lit(100)), Op::Pos, Op::Read(Sz::lit(70_000)), Op::Pos, Op::Read(Sz::lit(400_000)), Op::Pos],
+                    vec![Op::Read(b), Op::Pos, Op::Read(Sz::lit(1)), Op::Pos, Op::Read(Sz::lit(299_999)), Op::Pos, Op::Read(Sz::lit(5))],
+                    vec![Op::Read(Sz::from_concrete(len, &k)), Op::Pos, Op::Read(Sz::lit(5))],
+                    vec![Op::SeekStart(Tgt::FromStart(at(-4097))), Op::Read(Sz::lit(4096)), Op::Read(Sz::lit(4096)), Op::Pos, Op::Read(Sz::lit(300_000))],
+                ];
+                return Some((c, unneeded));
+            }
+            // signed shortest step: stored noise costs a little more than a byte per byte, so
+            // short steps converge
+            let mut step = (want - have).rem_euclid(k.chunk as i64);
+            if step > k.chunk as i64 / 2 {
+                step -= k.chunk as i64;
+            }
+            r += step;
+        }
+    }
+    None
+}
+
 pub fn run_case(ctx: &mut Ctx, c: &Case) {
     let k = ctx.k;
     let len = c.len.eval(&k);
-    let plain = file_bytes(c.seed, 0, c.data, len as usize);
+    let plain = content(c, len);
     let nops: usize = c.histories.iter().map(Vec::len).sum();
     let fp = model::prng::fnv(format!("{}|{}|{:?}", c.layer, len, c.histories.len()).as_bytes()) ^ c.seed;
     ctx.eval(fp, nops >= 2);
@@ -455,6 +519,26 @@ fn read_full<R: Read>(r: &mut R, buf: &mut [u8]) -> std::io::Result<usize> {
 }
 
 pub fn run(ctx: &mut Ctx) {
+    if ctx.k.is_prod() {
+        let residues: &[i64] = if ctx.quick() { &[1, 0] } else { &[1, 0, 2, -1, 17, 4096] };
+        for (i, r) in residues.iter().enumerate() {
+            if !ctx.mine(i as u64 + 5) {
+                continue;
+            }
+            match tuned_both_case(ctx, *r, ctx.seed ^ 0x7E1D ^ i as u64) {
+                Some((c, unneeded)) => {
+                    ctx.count("musthit:compressed_block_end_next_to_chunk_edge");
+                    if unneeded && *r == 1 {
+                        ctx.count("musthit:lone_unneeded_final_byte_starts_a_chunk");
+                    }
+                    if ctx.journal(&json!({"prop": "C11", "scenario": {"case": {"layer": c.layer, "len": c.len, "tuned_residue": r}, "k": ctx.k.name()}})) {
+                        run_case(ctx, &c);
+                    }
+                }
+                None => ctx.count("tuning_not_converged"),
+            }
+        }
+    }
     let cs = cases(ctx);
     for (i, c) in cs.iter().enumerate() {
         if !ctx.mine(i as u64) {
